@@ -630,6 +630,51 @@ def r4(ctx, ci):
                   "demoted: the same sky would be stored at two levels" %
                   norm(o[1]), node=lp)
     ctx.floor("C08-R4", n, 1, "demotion update sites in _demote_all")
+    demotion_levels(ctx, ci, "C08-R4")
+
+
+def demotion_levels(ctx, ci, rule):
+    """the flattening loop must read every level above the deepest one:
+    source levels 1 .. maxdepth-1 (shared with C09)"""
+    bfi = ci.methods.get("_demote_all")
+    if bfi is None:
+        raise AnalysisError("Region._demote_all missing")
+    al = pixeldict_aliases(bfi.node)
+    found = 0
+    for lp in walk_no_nested(bfi.node):
+        if not (isinstance(lp, ast.For) and isinstance(lp.target, ast.Name)):
+            continue
+        rb = _range_bounds(lp.iter)
+        if rb is None:
+            continue
+        srcs = []
+        for inner in ast.walk(lp):
+            if isinstance(inner, ast.For) and inner is not lp:
+                o = levelset_owner(inner.iter, al)
+                if o and o[0] == "self":
+                    srcs.append(o[1])
+        if not srcs:
+            continue
+        lo = linear(_subst_maxdepth(rb[0]), "MAXDEPTH")
+        hi = linear(_subst_maxdepth(rb[1]), "MAXDEPTH")
+        for lv in srcs:
+            off = linear(lv, lp.target.id)
+            found += 1
+            if lo is None or hi is None or off is None or off[0] != 1:
+                ctx.unknown_site(rule, bfi, norm(lp), lp)
+                continue
+            first = (lo[0], lo[1] + off[1])
+            last = (hi[0], hi[1] - 1 + off[1])
+            ctx.check(rule, bfi, "levels flattened by " + norm(lp),
+                      first == (0, 1) and last == (1, -1),
+                      "the flattening reads levels %s..%s but pixels can be "
+                      "stored at every level 1..maxdepth-1 above the "
+                      "deepest one: pixels at the skipped levels are "
+                      "missing from get_demoted()/sky_within() while "
+                      "get_area() still counts them" %
+                      (_fmt(first), _fmt(last)), {"first": first,
+                                                  "last": last}, lp)
+    ctx.floor(rule + "-levels", found, 1, "flattening loops in _demote_all")
 
 
 def _set_elts(e):
